@@ -784,6 +784,35 @@ func mutations(text string, rnd *rand.Rand, n int) []string {
 	return out
 }
 
+// structural returns the malformations that are applied to EVERY value (not sampled): each URI line replaced by a line of
+// white space only / an empty line, each quoted URI attribute emptied or blanked.
+func structural(text string) []string {
+	lines := strings.Split(strings.TrimSuffix(text, "\n"), "\n")
+	var out []string
+	for i, ln := range lines {
+		if ln != "" && !strings.HasPrefix(ln, "#") {
+			for _, rep := range []string{" ", "\t", "\t\r", "", "  \r"} {
+				ls := append([]string(nil), lines...)
+				ls[i] = rep
+				out = append(out, strings.Join(ls, "\n")+"\n")
+				if i == len(lines)-1 {
+					out = append(out, strings.Join(ls, "\n")) // no final newline
+				}
+			}
+		}
+		if x := strings.Index(ln, "URI=\""); x >= 0 && strings.HasPrefix(ln, "#") {
+			if q := strings.IndexByte(ln[x+5:], '"'); q >= 0 {
+				for _, rep := range []string{"", " "} {
+					ls := append([]string(nil), lines...)
+					ls[i] = ln[:x+5] + rep + ln[x+5+q:]
+					out = append(out, strings.Join(ls, "\n")+"\n")
+				}
+			}
+		}
+	}
+	return out
+}
+
 // RunDecoder feeds the decoder: mutations of valid playlists (from the abstract values), the repository's test
 // data and fuzz corpora.
 func RunDecoder(valuesPath, repoDir, outPath string, perValue int, seed int64) (int, error) {
@@ -818,6 +847,10 @@ func RunDecoder(valuesPath, repoDir, outPath string, perValue int, seed int64) (
 			continue
 		}
 		for _, m := range mutations(string(text), g.r, perValue) {
+			decodeOne(w, "mut", []byte(m))
+			n++
+		}
+		for _, m := range structural(string(text)) {
 			decodeOne(w, "mut", []byte(m))
 			n++
 		}
